@@ -223,17 +223,18 @@ type Conn struct {
 	taken   int    // cursor of Take
 	writes  []WriteRec
 
-	srvClosed   bool
-	srvClosedAt int64
-	srvCloses   int
-	readCalls   int
-	writeCalls  int
-	written     int
-	fault       *Fault
-	faulted     bool
-	faultedAt   int64
-	postClose   int // server writes attempted after it closed the connection
-	keepWrites  bool
+	srvClosed     bool
+	srvClosedAt   int64
+	srvCloses     int
+	readCalls     int
+	writeCalls    int
+	written       int
+	fault         *Fault
+	faulted       bool
+	faultedAt     int64
+	postClose     int // server writes attempted after it closed the connection
+	clientReading bool
+	keepWrites    bool
 }
 
 // SetSegments installs the read segmentation plan: the i-th server Read
@@ -402,6 +403,26 @@ func (c *Conn) WaitOutput(n int, guard time.Duration) bool {
 	return true
 }
 
+// WaitClientDrained waits until the blocking client-side reader (ClientEnd)
+// has consumed every server byte and is parked waiting for more, or the
+// server closed the connection and everything was consumed.
+func (c *Conn) WaitClientDrained(guard time.Duration) bool {
+	deadline := time.Now().Add(guard)
+	tm := time.AfterFunc(guard, func() { c.mu.Lock(); c.cond.Broadcast(); c.mu.Unlock() })
+	defer tm.Stop()
+	c.mu.Lock()
+	defer c.mu.Unlock()
+	for {
+		if c.outRead >= len(c.out) && (c.clientReading || c.srvClosed) {
+			return true
+		}
+		if time.Now().After(deadline) {
+			return false
+		}
+		c.cond.Wait()
+	}
+}
+
 // Reading reports whether the server is currently parked in Read.
 func (c *Conn) Reading() bool {
 	c.mu.Lock()
@@ -550,10 +571,14 @@ func (e *cliEnd) Read(p []byte) (int, error) {
 		if c.srvClosed || c.faulted {
 			return 0, io.EOF
 		}
+		c.clientReading = true
+		c.cond.Broadcast()
 		c.cond.Wait()
 	}
+	c.clientReading = false
 	n := copy(p, c.out[c.outRead:])
 	c.outRead += n
+	c.cond.Broadcast()
 	return n, nil
 }
 
